@@ -6,7 +6,7 @@
 (* The Compiler machine is stepped over the program's declarations (one    *)
 (* TLC state per grammar action); then each observation is decided.        *)
 (***************************************************************************)
-EXTENDS Compiler, TextPos, Cli, Json, IOUtils
+EXTENDS Compiler, TextPos, Cli, Naming, Json, IOUtils
 
 Batch == JsonDeserialize(IOEnv.TRACE_FILE)
 Traces == Batch.traces
@@ -78,6 +78,55 @@ ForbiddenWarnings ==
           THEN {<< tr.files[tr.main].name, "IndentWarning", ln >> : ln \in 1..Len(tr.files[tr.main].layout)}
           ELSE {})
 
+(* --- expected generated identifiers (C15), from the flat declarations of a file --- *)
+(* walk the declarations keeping the stack of enclosing MESSAGE names *)
+ExpectedIds(fx, lang, stdmode) ==
+    LET ds == tr.files[fx].decls
+        p == tr.files[fx].prefix
+        Step(acc, x) ==
+            LET d == ds[x]
+                e == acc.stack
+                n == IF "words" \in DOMAIN d THEN d.words ELSE <<>>
+                owner == acc.owner        \* identifier of the innermost open message in this language
+            IN
+            CASE d.d = "openMsg" ->
+                    [stack |-> Append(e, n), inenum |-> FALSE,
+                     owner |-> Append(acc.owner, CASE lang = "c" -> CStruct(p, e, n) [] lang = "py" -> PyClass(e, n)
+                                                   [] OTHER -> IF e = <<>> THEN GoType(n) ELSE "?"),
+                     ids |-> acc.ids \cup
+                        (CASE lang = "c" -> {"struct " \o CStruct(p, e, n), CEncode(p, e, n), CDecode(p, e, n), CSize(p, e, n)}
+                                            \cup (IF stdmode THEN {CJson(p, e, n)} ELSE {})
+                           [] lang = "py" -> {PyClass(e, n)} \cup {PyClass(e, n) \o "." \o m :
+                                                 m \in {"encode", "decode", "to_json", "to_dict", "BYTES_LENGTH"}}
+                           [] OTHER -> IF e = <<>>
+                                       THEN {GoType(n), GoSize(e, n)} \cup {GoType(n) \o "." \o m : m \in {"Encode", "Decode", "Size"}}
+                                       ELSE {})]
+              [] d.d = "closeMsg" /\ acc.stack # <<>> /\ acc.inenum = FALSE ->
+                    [acc EXCEPT !.stack = Front(@), !.owner = Front(@)]
+              [] d.d = "field" /\ acc.owner # <<>> ->
+                    [acc EXCEPT !.ids = @ \cup
+                        (CASE lang = "c" -> {Last(acc.owner) \o "." \o CField(n)}
+                           [] lang = "py" -> {Last(acc.owner) \o "." \o PyField(n)}
+                           [] OTHER -> IF Last(acc.owner) = "?" THEN {}
+                                       ELSE {Last(acc.owner) \o "." \o GoField(n) \o ":" \o GoJsonTag(n)})]
+              [] d.d = "openEnum" ->
+                    [acc EXCEPT !.inenum = TRUE, !.ids = @ \cup
+                        (CASE lang = "c" -> {CType(p, e, n)} [] lang = "py" -> {PyClass(e, n)}
+                           [] OTHER -> IF e = <<>> THEN {GoType(n)} ELSE {})]
+              [] d.d = "closeEnum" -> [acc EXCEPT !.inenum = FALSE]
+              [] d.d = "efield" ->
+                    [acc EXCEPT !.ids = @ \cup
+                        (CASE lang = "c" -> {CEnumMember(p, e, n)} [] lang = "py" -> {PyEnumMember(e, n)}
+                           [] OTHER -> IF e = <<>> THEN {Upper(n)} ELSE {})]
+              [] d.d = "alias" ->
+                    [acc EXCEPT !.ids = @ \cup
+                        (CASE lang = "c" -> {CType(p, <<>>, n)} [] lang = "py" -> {PyClass(<<>>, n)} [] OTHER -> {GoType(n)})]
+              [] d.d = "const" ->
+                    [acc EXCEPT !.ids = @ \cup
+                        (CASE lang = "c" -> {CConst(p, n)} [] lang = "py" -> {PyConst(n)} [] OTHER -> {GoConst(n)})]
+              [] OTHER -> acc
+    IN  FoldLeft(Step, [stack |-> <<>>, owner |-> <<>>, ids |-> {}, inenum |-> FALSE], [x \in 1..Len(ds) |-> x]).ids
+
 Check(e) ==
     CASE e.ev = "Outcome" ->
             IF cs.status = "rejected" /\ cs.err.kind = "out-of-model" THEN "skip:out-of-model"
@@ -140,6 +189,17 @@ Check(e) ==
                 ELSE IF o.files /\ ~e.funcs_same_text THEN "function-text-differs-from-unfiltered"
                 ELSE IF o.files /\ ~e.decls_same THEN "declarations-differ-from-unfiltered"
                 ELSE ""
+      [] e.ev = "Declared" ->
+            \* every identifier the naming scheme prescribes is declared in the output (C15)
+            With({e.ids[x] : x \in 1..Len(e.ids)}, LAMBDA D :
+            With(ExpectedIds(FileIdx(e.file), e.lang, e.stdmode), LAMBDA E :
+                IF \E x \in E : x \notin D
+                THEN "identifier-missing:" \o e.lang \o ":" \o (CHOOSE x \in E : x \notin D)
+                ELSE ""))
+      [] e.ev = "Files" ->
+            IF \E x \in 1..Len(e.names) : e.names[x] = OutBase(tr.files[FileIdx(e.file)].base) \o e.ext THEN ""
+            ELSE "output-file-name:" \o e.ext
+      [] e.ev = "SameSeq" -> IF e.a = e.b THEN "" ELSE "prefix-changes:" \o e.what
       [] e.ev = "OutcomeType" ->
             \* C09 outcome typing: a schema, a parser error, or an OS error -- nothing else
             IF e.outcome \in {"accepted", "rejected", "oserror"} THEN ""
